@@ -28,7 +28,11 @@ SlicePath(p, a, b) == LET n == Len(p.parts)  lo == Clip(n, a)  hi == Clip(n, b)
 (***************************************************************************)
 CT(part) == CASE part.pk = "map" -> "MAP" [] part.pk = "list" -> "LIST" [] OTHER -> "CONTAINER"
 Prefix(path, k) == SubSeq(path.parts, 1, k)
-SamePrefix(a, b) == Len(a) = Len(b) /\ \A j \in 1..Len(a) : PartEq(a[j], b[j], FALSE)
+\* the code groups the nodes by the printed form of the prefix (f"{partial_path!r}"), and a part prints its label only when
+\* the label is truthy: prefixes that differ only in a falsy label ("" / 0 / False against none) are one node
+ShownLabel(v) == IF Truthy(v) THEN v ELSE [k |-> "none", n |-> 0, xs |-> <<>>]
+ShownPart(p) == [p EXCEPT !.label = ShownLabel(p.label)]
+SamePrefix(a, b) == Len(a) = Len(b) /\ \A j \in 1..Len(a) : PartEq(ShownPart(a[j]), ShownPart(b[j]), FALSE)
 \* the container types implied for the node at prefix `pre` by every rule path that extends it
 TypesAt(paths, pre) ==
   {CT(paths[r].parts[Len(pre) + 1]) : r \in {r \in 1..Len(paths) :
